@@ -30,6 +30,7 @@ RULE = ("random block programs inside `async with scoped_iter(underlying)`: sequ
 RULE += (' Also: adapter sources (aclose via __getattr__); tools as in C07 including unaligned islice and failing callables.')
 RULE += (' Also: the multi-input tools of C07 (handle at every position; ValueError of zip strict compared with the stdlib on the shared iterator).')
 RULE += (' Also: a tool polling a stale group of a groupby over the shared handle.')
+RULE += (' Also: a tool running a groupby whose key fails once over the shared handle.')
 ASSUMPTIONS = ["iterables without aclose get a neutral context: only the in-block sequence semantics are checked for them",
                "tool laziness is C05's concern; the stdlib twin predicts how many items each tool takes"]
 EXHAUSTIVE_SUBSPACES = 'nested scopes of depth 2..3 left in every order x 3 underlying kinds x 0..2 items taken'
